@@ -509,6 +509,8 @@ class ExprMixin:
             return T.sv_int(TH.tat(base.t, jj))
         if isinstance(base.ty, T.Seq):
             j = self.coerce(key, T.INT).t
+            if self.spec_mode:
+                return T.scalar(base.ty.e, base.at[j])      # specifications index with 0 <= j < len only
             self._raise_if(p, z3.Or(j >= base.len, j < -base.len), "IndexError", note)
             jj = z3.If(j >= 0, j, j + base.len) if not z3.is_int_value(j) or j.as_long() < 0 else j
             return T.scalar(base.ty.e, base.at[jj])
